@@ -103,6 +103,27 @@ REST_EXEMPT = {
 }
 
 
+# Functions for which the restore-on-failure convention was confirmed on the reviewed tree (their callers re-scan or read the
+# position after a falsy result).  A function outside this table that returns falsy with the cursor moved is reported as
+# undecided, not as a violation: whether its callers rely on the convention is not known (e.g. a helper extracted from a
+# loop that legitimately runs to the end of the input).
+REST_CONFIRMED = {
+    'abbreviation.tokenizer.bracket', 'abbreviation.tokenizer.field', 'abbreviation.tokenizer.literal', 'abbreviation.tokenizer.operator',
+    'abbreviation.tokenizer.quote', 'abbreviation.tokenizer.repeater', 'abbreviation.tokenizer.repeater_number', 'abbreviation.tokenizer.repeater_placeholder',
+    'abbreviation.tokenizer.utils.escaped', 'abbreviation.tokenizer.white_space', 'css_abbreviation.tokenizer.bracket', 'css_abbreviation.tokenizer.color_alpha',
+    'css_abbreviation.tokenizer.color_value', 'css_abbreviation.tokenizer.consume_number', 'css_abbreviation.tokenizer.custom_property',
+    'css_abbreviation.tokenizer.field', 'css_abbreviation.tokenizer.literal', 'css_abbreviation.tokenizer.number_value', 'css_abbreviation.tokenizer.operator',
+    'css_abbreviation.tokenizer.string_value', 'css_abbreviation.tokenizer.white_space', 'css_matcher.parse.is_minus_operator', 'css_matcher.scan.comment',
+    'css_matcher.scan.is_known_selector_colon', 'css_matcher.scan.literal', 'css_matcher.scan.whitespace', 'extract_abbreviation.consume_list',
+    'extract_abbreviation.consume_pair', 'extract_abbreviation.is_html.consume_attribute', 'extract_abbreviation.is_html.consume_attribute_with_quoted_value',
+    'extract_abbreviation.is_html.consume_attribute_with_unquoted_value', 'extract_abbreviation.is_html.consume_ident', 'extract_abbreviation.is_html.consume_quoted',
+    'extract_abbreviation.is_html.is_html', 'html_matcher.attributes.attribute_name', 'html_matcher.attributes.attribute_value', 'html_matcher.attributes.unquoted',
+    'html_matcher.scan.cdata', 'html_matcher.scan.comment', 'html_matcher.scan.consume_closing', 'html_matcher.scan.processing_instruction',
+    'html_matcher.utils.consume_array', 'html_matcher.utils.consume_paired', 'html_matcher.utils.consume_section', 'html_matcher.utils.ident',
+    'math_expression.extract.number', 'math_expression.parser.consume_number', 'scanner_utils.eat_pair', 'scanner_utils.eat_quoted',
+}
+
+
 def _result_tested(p, f):
     """is the return value of f truth-tested at some call site?"""
     for caller, call in callgraph.get(p).callers_of(f):
@@ -137,7 +158,11 @@ def scn_rest(p, res):
                     n += 1
                     if o.d != 'Z':
                         bad = (ctx, o)
-        if bad:
+        if bad and f.short not in REST_CONFIRMED:
+            ctx, o = bad
+            res.undecided('falsy return of %s with the cursor moved (displacement %s)' % (f.short, o.d),
+                          'not one of the consumers whose callers were confirmed to rely on restore-on-failure')
+        elif bad:
             ctx, o = bad
             res.bad(F('SCN-REST', f, f.node, 'falsy return of %s' % f.name,
                       'a path returns a falsy value with the cursor moved (displacement %s): the caller treats the input as not consumed and re-scans or mis-attributes it' % o.d,
@@ -214,31 +239,124 @@ def token_classes(p):
 @rule('SCN-SPAN', 'D', 'every token built by a tokenizer carries both span ends: start saved before consuming, end = current cursor, cursor advanced')
 def scn_span(p, res):
     _emit(p, res, 'SCN-SPAN')
-    # merge_tokens: the merged literal spans the first popped start .. the last token's end
+    # merge_tokens: tokens are popped from the end of the list; the merged literal spans from the start of the last popped
+    # token (= the first merged one) to the end of the first popped token (= the last merged one).  Decided on the symbolic
+    # summary of one generic iteration with both accumulators symbolic.
+    from .. import sympath, norm, shape
     mt = p.func('css_abbreviation.tokenizer.merge_tokens')
-    s = src_of(mt.node)
-    need = ['start = token.start', 'if not end:\n                end = token.end', 'token_list.pop()', 'token_list.append(create_literal(scanner, start, end))']
-    if all(n_ in s for n_ in need):
-        res.ok('merge_tokens: literal spans start of the first merged token .. end of the last')
+    mn = norm.nf(p, mt, inline=True)
+    body = [st for st in mn.body if not (isinstance(st, ast.Expr) and isinstance(st.value, ast.Constant))]
+    li = [i for i, st in enumerate(body) if isinstance(st, ast.While)]
+    LST = mt.params[1]
+    if len(li) != 1:
+        res.undecided('merge_tokens', 'one loop over the token list expected')
     else:
-        res.bad(F('SCN-SPAN', mt, mt.node, 'merge_tokens body', 'the merged literal must span from the first merged token\'s start to the last one\'s end'))
-    # Token.__init__ stores both ends
+        lp = body[li[0]]
+        try:
+            pre = sympath.feasible(sympath.block_summaries(p, mt, body[:li[0]]))
+            carried = sorted({n.id for n in ast.walk(ast.Module(body=lp.body, type_ignores=[])) if isinstance(n, ast.Name) and isinstance(n.ctx, ast.Store)})
+            env0 = dict(pre[0].env) if len(pre) == 1 else {}
+            env = dict(env0)
+            for c in carried:
+                env[c] = ast.Name(id='_acc_' + c, ctx=ast.Load())
+            its = sympath.feasible(sympath.block_summaries(p, mt, lp.body, env=env))
+            penv = dict(env0)
+            for c in carried:
+                penv[c] = ast.Name(id='_fin_' + c, ctx=ast.Load())
+            post = sympath.feasible(sympath.block_summaries(p, mt, body[li[0] + 1:], env=penv))
+        except sympath.Unsupported as e:
+            its = post = []
+            env0 = {}
+            res.undecided('merge_tokens', str(e))
+        TOK = '%s[-1]' % LST
+        S = E = None
+        verdicts = []
+        for q in its:
+            rc = q.rconds()
+            pops = [n for _, n, _ in q.calls('pop') if src_of(n.func.value) == LST]
+            mergeable = any(k.startswith('isinstance(%s' % TOK) and v for k, v in rc.items())
+            notmerge = all((not v) for k, v in rc.items() if k.startswith('isinstance(%s' % TOK)) and any(k.startswith('isinstance(%s' % TOK) for k in rc)
+            where = ['iteration path: ' + q.cond_str()]
+            if notmerge:
+                if q.exit != 'break' or pops:
+                    res.bad(F('SCN-SPAN', mt, lp, 'non-mergeable token [%s]' % q.cond_str(), 'merging must stop at the first token that is neither a literal nor a number, leaving it in the list', details=where))
+                continue
+            if not mergeable:
+                res.undecided('merge_tokens iteration %s' % q.cond_str(), 'token kind not tested')
+                continue
+            if len(pops) != 1:
+                res.bad(F('SCN-SPAN', mt, lp, 'mergeable token [%s]' % q.cond_str(), 'a merged token must be removed from the list exactly once', details=where))
+                continue
+            for c in carried:
+                new = q.rsrc(q.env[c])
+                A = '_acc_' + c
+                if new == '%s.start' % TOK:
+                    S = c
+                    verdicts.append(('S', 'always'))
+                elif new == '%s.end' % TOK and rc.get(A) is False:
+                    E = c
+                    verdicts.append(('E', 'first'))
+                elif new == A and rc.get(A) is True:
+                    E = E or c
+                    verdicts.append(('E', 'kept'))
+                elif new == '%s.end' % TOK and rc.get(A) is None:
+                    res.bad(F('SCN-SPAN', mt, lp, '%s = %s.end on every iteration' % (c, TOK), 'tokens are popped from the end: the end of the merged literal is the end of the *first* popped token and must not be overwritten by earlier tokens', details=where))
+                elif new == '%s.start' % TOK and rc.get(A) is False:
+                    res.bad(F('SCN-SPAN', mt, lp, '%s = %s.start only once' % (c, TOK), 'the start of the merged literal is the start of the last popped (= first merged) token: it must follow every popped token', details=where))
+        if S and E and ('E', 'first') in verdicts and ('E', 'kept') in verdicts:
+            i0s, i0e = p.try_const(mt, env0.get(S)), p.try_const(mt, env0.get(E))
+            if i0e == 0 or i0e is None and src_of(env0.get(E)) == 'None':
+                res.ok('merge_tokens: start follows every popped token, end is taken from the first popped one')
+            else:
+                res.undecided('initial end %r' % i0e, 'falsy initial end')
+            good = 0
+            for q in post:
+                rc = q.rconds()
+                differ = rc.get('_fin_%s != _fin_%s' % (S, E))
+                if differ is None and rc.get('_fin_%s == _fin_%s' % (S, E)) is not None:
+                    differ = not rc['_fin_%s == _fin_%s' % (S, E)]
+                apps = [q.rsrc(n) for _, n, _ in q.calls('append')]
+                lits = [q.rsrc(n) for _, n, _ in q.calls('create_literal')]
+                if differ is True:
+                    if len(lits) == 1 and lits[0].endswith('_fin_%s, _fin_%s)' % (S, E)) and len(apps) == 1:
+                        good += 1
+                    elif len(lits) == 1 and lits[0].endswith('_fin_%s, _fin_%s)' % (E, S)):
+                        res.bad(F('SCN-SPAN', mt, mt.node, lits[0].replace('_fin_', ''), 'start and end of the merged literal are swapped'))
+                    else:
+                        res.undecided('after the loop: %s' % (apps + lits), 'append(create_literal(scanner, start, end))')
+                elif differ is False:
+                    if not apps:
+                        good += 1
+                    else:
+                        res.undecided('after the loop (nothing merged): %s' % apps, 'nothing appended')
+            if good == 2:
+                res.ok('merge_tokens: the merged literal (start, end) is appended exactly when something was merged')
+        elif its:
+            res.undecided('merge_tokens accumulators %s' % verdicts, 'start = token.start always; end = token.end only while unset')
+    # Token.__init__ stores both ends; subclasses forward their trailing (start, end) arguments
     for mq in ('abbreviation.tokenizer.tokens', 'css_abbreviation.tokenizer.tokens'):
         init = p.func(mq + '.Token.__init__')
-        if init.params[1:3] == ['start', 'end'] and 'self.start = start' in src_of(init.node) and 'self.end = end' in src_of(init.node):
+        stores = {src_of(n.targets[0]): src_of(n.value) for n in init.body_nodes() if isinstance(n, ast.Assign) and len(n.targets) == 1}
+        if len(init.params) >= 3 and stores.get('self.start') == init.params[1] and stores.get('self.end') == init.params[2]:
             res.ok('%s.Token.__init__(start, end) stores both' % mq)
-        else:
+        elif len(init.params) >= 3 and stores.get('self.start') == init.params[2] and stores.get('self.end') == init.params[1]:
             res.bad(F('SCN-SPAN', init, init.node, 'Token.__init__', 'Token must store (start, end) in this order'))
+        else:
+            res.undecided('%s.Token.__init__' % mq, 'self.start / self.end from the first two parameters')
         base = p.cls(mq + '.Token')
         for c in p.subclasses(base):
             ci = c.methods.get('__init__')
             if ci is None:
                 res.ok('%s inherits Token.__init__' % c.name)
                 continue
-            if ci.vararg and ('super(%s, self).__init__(*%s)' % (c.name, ci.vararg)) in src_of(ci.node):
+            fwd = [n for n in ci.body_nodes() if isinstance(n, ast.Call) and isinstance(n.func, ast.Attribute) and n.func.attr == '__init__'
+                   and any(isinstance(a_, ast.Starred) and src_of(a_.value) == ci.vararg for a_ in n.args)]
+            if ci.vararg and len(fwd) == 1 and len(fwd[0].args) == 1:
                 res.ok('%s.__init__ forwards *%s to Token.__init__' % (c.name, ci.vararg))
+            elif not ci.vararg and not any(isinstance(n, ast.Call) and isinstance(n.func, ast.Attribute) and n.func.attr == '__init__' for n in ci.body_nodes()):
+                res.bad(F('SCN-SPAN', ci, ci.node, '%s.__init__' % c.name, 'token subclass must forward its trailing (start, end) arguments to Token.__init__: its span is never stored'))
             else:
-                res.bad(F('SCN-SPAN', ci, ci.node, '%s.__init__' % c.name, 'token subclass must forward its trailing (start, end) arguments to Token.__init__'))
+                res.undecided('%s.__init__' % c.name, 'forwarding of (start, end) to Token.__init__')
     res.require_floor(30)
 
 
